@@ -132,6 +132,13 @@ var _ *multierror.Error
 //@   loop 2.1 invariant ef_named: forall i int :: 0 <= i && i < len(extendingFiles) ==> (exists j int :: 0 <= j && j < len(modules) && old(modules[j].Name) == extendingFiles[i])
 //@   loop 2.1.2 invariant sep_str: arr(existingRelationNames) != arr(extendingFiles)
 //@   loop 2.1.2 invariant ef_named: forall i int :: 0 <= i && i < len(extendingFiles) ==> (exists j int :: 0 <= j && j < len(modules) && old(modules[j].Name) == extendingFiles[i])
+//@   -- C07 ("no relation name is contributed twice to one type" is CHECKED against everything the type has at that
+//@   -- moment): the names collected by loop 2.1.2 cover every relation of the extended type, loop 2.1.3 leaves them
+//@   -- alone, and while loop 2.1.4 adds relations every relation of the type is either in that list or was added by
+//@   -- an earlier iteration (so a later extension sees the relations added by an earlier one)
+//@   loop 2.1.2 invariant existing_collected: forall k string :: $visited[k] ==> (exists i int :: 0 <= i && i < len(existingRelationNames) && existingRelationNames[i] == k)
+//@   loop 2.1.3 invariant existing_kept: arr(relationNames) != arr(existingRelationNames) && (forall k string :: has(original.GetRelations(), k) ==> (exists i int :: 0 <= i && i < len(existingRelationNames) && existingRelationNames[i] == k))
+//@   loop 2.1.4 invariant known_or_added: forall k string :: has(original.GetRelations(), k) ==> ((exists i int :: 0 <= i && i < len(existingRelationNames) && existingRelationNames[i] == k) || (exists j int :: 0 <= j && j < $i && relationNames[j] == k))
 //@   loop 2.1.3 invariant sep_str: arr(relationNames) != arr(extendingFiles)
 //@   loop 2.1.3 invariant ef_named: forall i int :: 0 <= i && i < len(extendingFiles) ==> (exists j int :: 0 <= j && j < len(modules) && old(modules[j].Name) == extendingFiles[i])
 //@   loop 2.1.4 invariant errs: transformErrors != nil && fresh(transformErrors) && len(transformErrors.Errors) >= 0 && (arr(transformErrors.Errors) == 0 || allocated(transformErrors.Errors)) && transformErrors == pre(transformErrors)
